@@ -67,7 +67,8 @@ func c16r2(p *Program, r *Report) {
 	keyShapes := map[string][]string{} // shape -> sites
 	keyVars := map[string]ast.Expr{}
 	nfun := 0
-	p.forEachFunc(false, func(fi *FuncInfo) {
+	// a mutation made by an unexported helper that relies on its callers' lock belongs to those callers
+	writesOf := func(fi *FuncInfo) map[string][]ast.Node {
 		info := fi.Pkg.TypesInfo
 		written := map[string][]ast.Node{}
 		ast.Inspect(fi.Decl.Body, func(x ast.Node) bool {
@@ -88,6 +89,48 @@ func c16r2(p *Program, r *Report) {
 			}
 			return true
 		})
+		return written
+	}
+	locksItself := func(fi *FuncInfo) bool {
+		n := 0
+		inspectNoLit(fi.Decl.Body, func(x ast.Node) bool {
+			if c, ok := x.(*ast.CallExpr); ok {
+				if k, ok := isMutexMethod(calleeName(fi.Pkg.TypesInfo, c)); ok && k == "Lock" {
+					n++
+				}
+			}
+			return true
+		})
+		return n > 0
+	}
+	isLockedHelper := func(fi *FuncInfo) bool {
+		if fi.Obj == nil || fi.Obj.Exported() || locksItself(fi) || len(writesOf(fi)) == 0 {
+			return false
+		}
+		ok, _ := p.heldAtAllCallSites(fi, "mu", true, 0)
+		return ok
+	}
+	p.forEachFunc(false, func(fi *FuncInfo) {
+		info := fi.Pkg.TypesInfo
+		if isLockedHelper(fi) {
+			return // accounted for in its callers
+		}
+		written := writesOf(fi)
+		var merge func(f *FuncInfo, depth int)
+		merge = func(f *FuncInfo, depth int) {
+			if depth > 2 {
+				return
+			}
+			for _, h := range p.privateCallees(f) {
+				if isLockedHelper(h) {
+					for fld, ns := range writesOf(h) {
+						written[fld] = append(written[fld], ns...)
+					}
+					merge(h, depth+1)
+				}
+			}
+		}
+		merge(fi, 0)
 		if len(written) == 0 {
 			return
 		}
@@ -471,6 +514,11 @@ func c16r7(p *Program, r *Report) {
 	tr.noAuto = func(string) bool { return true }
 	tr.trackField = "change"
 	tr.markTypeCases = true
+	for _, c := range p.unitsOf(fi)[1:] {
+		if c.Pkg == p.Root && (strings.HasPrefix(c.Name, "(*Session).") || !strings.Contains(c.Name, ").")) {
+			tr.inline[c.Name] = true
+		}
+	}
 	found, records := false, true
 	var bad *pathState
 	for _, st := range tr.run(fi, 4) {
